@@ -191,20 +191,28 @@ def solve_triangular(a, b, lower=False, trans=0, **kw):
 
 
 def expm(a):
-    """matrix exponential of a matrix whose entries are O(formal parameter): the defining
-    power series, exact in the truncated algebra"""
+    """matrix exponential: the defining power series. For a matrix whose entries are O(formal
+    parameter) the series is exact in the truncated algebra; for a NILPOTENT matrix with
+    ordinary symbolic entries (strictly triangular pattern) the series terminates and is exact."""
     a = np.asarray(a, dtype=object)
     n = a.shape[0]
-    for idx in np.ndindex(a.shape):
-        e = J(a[idx])
-        if not S.is0(z3.simplify(e.c0)):
-            raise NotImplementedError('expm stub needs a nilpotent (formal-parameter) argument')
-    order = sum(S.C.maxdeg) if S.C.total is None else min(sum(S.C.maxdeg), S.C.total)
+    formal = all(S.is0(z3.simplify(J(a[idx]).c0)) for idx in np.ndindex(a.shape))
     M = S.symnp.eye(n)
     P = S.symnp.eye(n)
-    for k in range(1, order + 1):
+    if formal:
+        order = sum(S.C.maxdeg) if S.C.total is None else min(sum(S.C.maxdeg), S.C.total)
+        for k in range(1, order + 1):
+            P = np.dot(P, a)
+            for idx in np.ndindex(P.shape):
+                P[idx] = J(P[idx]) * Fr(1, k)
+            M = M + P
+        return M
+    zero = lambda e: all(S.is0(z3.simplify(v, som=True)) for v in J(e).co.values())
+    for k in range(1, n + 2):
         P = np.dot(P, a)
         for idx in np.ndindex(P.shape):
             P[idx] = J(P[idx]) * Fr(1, k)
+        if all(zero(P[idx]) for idx in np.ndindex(P.shape)):
+            return M
         M = M + P
-    return M
+    raise NotImplementedError('expm stub needs a formal-parameter or a nilpotent argument')
